@@ -925,10 +925,13 @@ func allFields(call *ast.CallExpr) bool {
 		return false
 	}
 	b, ok := call.Args[1].(*ast.BasicLit)
-	if !ok {
+	if !ok || b.Kind != token.STRING {
 		return false
 	}
-	return strings.EqualFold(strconv.Quote("*"), b.Value)
+	// Compare the string the literal denotes, as checkField does for
+	// field names: `*` and "\x2a" are "*" as well.
+	s, err := strconv.Unquote(b.Value)
+	return err == nil && s == "*"
 }
 
 // isPrevented checks whether field i is prevented by tag "-".
